@@ -201,6 +201,8 @@ class BSession:
         for k in path:
             before = [self.stampf(i) for i in range(len(self.files))]
             is_list = isinstance(object.__getattribute__(h, "_data"), list)
+            if is_list != isinstance(k, int):
+                return None      # the in-memory view used to choose the path was stale: skip
             res = self.call(lambda: h[k])
             nav = ("LGet", k) if is_list else ("DGet", k)
             nop = f"(OL {c_lop(nav)})" if is_list else f"(OD {c_dop(nav)})"
